@@ -312,6 +312,7 @@ func C13() int {
 			c.Count("dollar_pairs_checked", 1)
 		}
 		c.Eval("relations|" + r)
+		c.Sample(map[string]any{"replacement": r, "name": names[nC], "pseudonym": get(nC), "first_component": names[idxOf[dotted[0][0]]], "its_pseudonym": get(idxOf[dotted[0][0]])})
 	}
 
 	// CLI: pseudonyms visible in -w and -f output must be the in-process ones.
